@@ -44,6 +44,8 @@ def gen_freq(rng, nf):
         else:
             d = step if i < nf // 2 else step * 4
         f.append(f[-1] + d)
+    if rng.random() < 0.1:
+        return kind + "-wide", [v / 16.0 for v in f]     # up to ~100 Hz: a finite default fmax would show
     return kind, [v / 256.0 for v in f]
 
 
@@ -122,8 +124,9 @@ def gen_bands(rng, f, nb):
     bands = [(0.0, INF)]
     kinds = ["default"]
     while len(bands) < nb:
-        k = rng.choice(["grid", "grid", "gridpm", "empty_between", "empty_above", "empty_rev", "single",
-                        "single_eq", "upper_open", "lower_only", "last_excluded", "first_only", "below0"])
+        k = rng.choice(["grid", "grid", "grid", "gridpm", "gridpm", "empty_between", "empty_above", "empty_rev", "single",
+                        "single_eq", "upper_open", "upper_open", "lower_only", "lower_only", "last_excluded", "first_only",
+                        "below0"])
         i = rng.randrange(nf); j = rng.randrange(nf)
         i, j = min(i, j), max(i, j)
         if k == "grid":
@@ -611,7 +614,7 @@ def run(ctx):
         part = cases[s:s + chunk]
         evaluate(ctx, part, max(0, min(len(part), exact - done)))
         done += len(part)
-    laws(ctx, rng, ctx.n(40, 600))
+    laws(ctx, rng, ctx.n(40, 400))
 
 
 def replay(ctx, obj):
